@@ -18,7 +18,8 @@ class C08(Prop):
     assumptions = ["asyncio.sleep granularity and the order in which a report and a timer expiring at the same virtual instant are served are "
                    "fixed by the harness (both orders are generated as distinct histories)",
                    "reports are delivered through Parameter.update (the call the device handlers make) and, for ecoMAX parameters, also "
-                   "as response frames through a real device (kind `frames`)"]
+                   "as response frames through a real device (kind `frames`; `frames-hop`: the thread-pool job behind Request.create is completed by the harness, "
+                   "so that a report can be handled while the request of a transmission is being built)"]
 
     def generate(self, rng, tier):
         t = G.tables()
@@ -99,6 +100,22 @@ class C08(Prop):
             c = self._case(rng, tbl, idx, size, retries, rng.random() < 0.5, evs, "frames")
             c["b0"] = rng.randrange(256)
             cases.append(c)
+        # ... with the thread-pool job behind Request.create completing late: a report is handled while the request of a
+        # transmission is being built (`hop` = first event, or the event right after a timer expiry)
+        for _ in range(150 if tier == "quick" else 3000):
+            tbl, idx, size = rng.choice(eco)
+            retries = rng.choice([1, 2, 3])
+            evs = []
+            for j in range(rng.randrange(1, 6)):
+                if j > 0 or rng.random() < 0.4:
+                    evs.append("tick")
+                if rng.random() < 0.6:
+                    evs.append(rng.choice(["hop-stale", "hop-stale", "hop-third", "hop-confirm"]))
+                if rng.random() < 0.2:
+                    evs.append(rng.choice(["stale", "confirm"]))
+            c = self._case(rng, tbl, idx, size, retries, rng.random() < 0.5, evs, "frames-hop")
+            c["b0"] = rng.randrange(256)
+            cases.append(c)
         return cases
 
     def _case(self, rng, tbl, idx, size, retries, tracking, evs, kind):
@@ -117,6 +134,10 @@ class C08(Prop):
                 events.append([1, [req, lo_b, hi_b]])
             elif e == "third":
                 events.append([1, [third, lo_b, hi_b]])
+            elif e.startswith("hop-"):
+                # a report right after another hop report (no transmission in between) is an ordinary report
+                first_or_after_tick = not events or events[-1] == [0]
+                events.append([3 if first_or_after_tick else 1, [{"stale": old, "third": third, "confirm": req}[e[4:]], lo_b, hi_b]])
             else:
                 events.append([1, [old, old, old]])
         return {"kind": kind, "tbl": tbl, "idx": idx, "triple": [old, lo_b, hi_b], "req": req, "retries": retries,
@@ -126,12 +147,12 @@ class C08(Prop):
         if c["kind"] == "two-calls":
             res = vloop.run(param_impl.run_session, c["tbl"], c["idx"], c["triple"], c["calls"], c["tracking"])
             return [[r[0] for r in res], [r[1] for r in res]]
-        if c["kind"] == "frames":
+        if c["kind"] in ("frames", "frames-hop"):
             if "_payloads" not in c:
-                trs = [c["triple"]] + [ev[1] for ev in c["events"] if ev[0] == 1]
+                trs = [c["triple"]] + [ev[1] for ev in c["events"] if ev[0] in (1, 3)]
                 c["_payloads"] = [list(model.call("enc_ecomax_params", [c["b0"], c["idx"], [[tr]]])) for tr in trs]
             outs, after, _ = vloop.run(param_impl.run_set_call_frames, c["tbl"], c["idx"], c["triple"], c["req"], c["retries"], 5.0,
-                                       c["events"], c["tracking"], c["_payloads"])
+                                       c["events"], c["tracking"], c["_payloads"], c["kind"] == "frames-hop")
             return [outs, after]
         if c["kind"] == "device-set":
             outs, after, _ = vloop.run(param_impl.run_set_call, c["tbl"], c["idx"], c["triple"], c["shown"], c["retries"], 5.0,
@@ -142,7 +163,10 @@ class C08(Prop):
         return [outs, after]
 
     def _margs(self, c):
-        return [[c["tracking"]] * 12, c["triple"], c["req"], c["retries"], c["events"]]
+        # a report handled while a request is being built is, for the model and the monitor, a report right after that transmission
+        # (the value a request carries is fixed when the transmission step starts)
+        evs = [[1, ev[1]] if ev[0] == 3 else ev for ev in c["events"]]
+        return [[c["tracking"]] * 12, c["triple"], c["req"], c["retries"], evs]
 
     def _session_model(self, c):
         fix = lambda r: [[([o[0], bool(o[1])] if o[0] == 2 else o) for o in pt] for pt in r]
